@@ -28,11 +28,12 @@ ChooserSelect(s) ==
     /\ out' = <<>> /\ UNCHANGED <<sh, now, selStr, active, started, t0, life>>
 
 Chosen == IF selStr \in sh.modes THEN selStr ELSE chooser
+\* start() without a disable() since the previous start() is allowed ("it is okay to not call disable() if you do
+\* not need on_disable"): the previously active mode is simply abandoned and must not hear from the selector again
 Start ==
-    /\ active = None
     /\ active' = Chosen /\ started' = TRUE /\ t0' = now
     /\ out' = IF Chosen # None THEN <<[m |-> Chosen, k |-> "on_enable"]>> ELSE <<>>
-    /\ life' = IF Chosen # None THEN [life EXCEPT ![Chosen] = "enabled"] ELSE life
+    /\ life' = [m \in sh.modes |-> IF m = Chosen THEN "enabled" ELSE IF m = active THEN "idle" ELSE life[m]]
     /\ UNCHANGED <<sh, now, selStr, chooser>>
 Periodic ==
     /\ started
@@ -44,7 +45,7 @@ Disable ==
     /\ active' = IF "no_clear_on_disable" \in Dev THEN active ELSE None
     /\ UNCHANGED <<sh, now, selStr, chooser, started, t0>>
 
-EvEnabled(ev) == CASE ev.e = "start" -> active = None [] ev.e = "periodic" -> started
+EvEnabled(ev) == CASE ev.e = "start" -> TRUE [] ev.e = "periodic" -> started
                    [] ev.e \in {"tick", "str", "choose", "disable"} -> TRUE [] OTHER -> FALSE
 EvNext(ev) == CASE ev.e = "tick" -> Tick(ev.d) [] ev.e = "str" -> SetString(ev.s) [] ev.e = "choose" -> ChooserSelect(ev.s)
                 [] ev.e = "start" -> Start [] ev.e = "periodic" -> Periodic [] ev.e = "disable" -> Disable
@@ -54,12 +55,12 @@ EvNext(ev) == CASE ev.e = "tick" -> Tick(ev.d) [] ev.e = "str" -> SetString(ev.s
 C14_OnlyActive == [][\A i \in 1..Len(out') : out'[i].m = active \/ out'[i].m = active']_slvars
 \* on_iteration only inside the on_enable / on_disable bracket; nothing after on_disable
 C14_Bracket == [][\A i \in 1..Len(out') :
-                     CASE out'[i].k = "on_enable" -> life[out'[i].m] = "idle"
+                     CASE out'[i].k = "on_enable" -> TRUE
                        [] out'[i].k = "on_iteration" -> life[out'[i].m] = "enabled"
                        [] out'[i].k = "on_disable" -> life[out'[i].m] = "enabled"]_slvars
 C14_AtMostOneEnabled == Cardinality({m \in sh.modes : life[m] = "enabled"}) <= 1
 C14_EnabledIsActive == \A m \in sh.modes : life[m] = "enabled" => active = m
 \* the dashboard string wins when it names a mode, else the chooser
-C14_Selection == [][(active = None /\ active' # None) => active' = (IF selStr \in sh.modes THEN selStr ELSE chooser)]_slvars
+C14_Selection == [][((started' /\ t0' # t0) \/ (~started /\ started')) => active' = (IF selStr \in sh.modes THEN selStr ELSE chooser)]_slvars
 C14_ElapsedNonNegative == \A i \in 1..Len(out) : out[i].k = "on_iteration" => out[i].t >= 0
 =============================================================================
